@@ -3,7 +3,7 @@
 META = dict(
     engine="E-PURE",
     technique="Lean 4 proof (induction over the safeAdd merge / binary search; omega for rounding) + differential correspondence vs types.Coins/BigInt/BigDec",
-    level_text="Kernel-checked theorems for all coin lists and all integers: per-denomination sums/differences, canonical results, negative flag iff some denomination underflows, binary-search lookup = map lookup, 255-bit overflow exactness, banker's rounding within half ulp. The Go code is tied to the model by running both on generated inputs every run; the Lean driver also evaluates the executable spec on the implementation's own outputs.",
+    level_text="Kernel-checked theorems for all coin lists and all integers: per-denomination sums/differences, canonical results, negative flag iff some denomination underflows, binary-search lookup = map lookup, uniqueness of the canonical form (so add is commutative/associative as lists and (a+b)-b = a), IsAllGTE = pointwise order, 255-bit overflow exactness, banker's rounding within half ulp. The Go code is tied to the model by running both on generated inputs every run; the Lean driver also evaluates the executable spec on the implementation's own outputs.",
     level_note="Trusted: Lean kernel; axioms propext, Classical.choice, Quot.sound; the Go harness/driver parser; math/big itself. Unsorted inputs are compared with the model only. BigDec ApproxRoot/FracPow are covered under C27.",
 )
 
